@@ -383,4 +383,23 @@ theorem get_field_on_hidden_type :
     (getField demo noF "Secret" "id").isSome = true ∧ getField (erase demo noF) top "Secret" "id" = none := by
   decide
 
+/-- A mutation root type that itself requires feature `a` (the F-13f shape). -/
+def demoGatedRoot : Schema :=
+  { types := [
+      mkT .scalar "Int" [],
+      mkT .object "Mutation" ["a"] [{ name := "touch", ty := .named "Int", req := [], args := [] }],
+      mkT .object "Query" [] [{ name := "ok", ty := .named "Int", req := [], args := [] }]],
+    query := "Query", mutation := some "Mutation" }
+
+/-- F-13f (open finding): the hypothesis `RootsUngated` cannot be dropped. `schema.New` accepts a root
+    operation type that carries required features; the code consults `MutationType()` without a
+    feature test, so with the feature off the root type is still reported and its fields still run,
+    while the erased schema has no mutation type at all. -/
+theorem gated_root_differs :
+    Accepted demoGatedRoot = true ∧ RootsUngated demoGatedRoot = false ∧
+    (view demoGatedRoot noF).mutationType ≠ (view (erase demoGatedRoot noF) top).mutationType ∧
+    walk (view demoGatedRoot noF) (view demoGatedRoot noF).mutationType (.cons "field" "touch" .nil .nil)
+      = [.resolve "Mutation" "touch"] := by
+  decide
+
 end ApiFu.C13
